@@ -5,3 +5,4 @@ import TransportVerif.Props.C16
 import TransportVerif.Props.C20
 import TransportVerif.Props.C06
 import TransportVerif.Props.C07
+import TransportVerif.Props.C18
